@@ -191,7 +191,7 @@ PROPS = {
         trusted=COMMON_TRUST),
     "C15": dict(
         module="FastQr.Props.C15", level="proof", key=key_build,
-        rule="cases: as C03; spec verdict = module_type() of every module = ISO region of the coordinate; #Data = 8*codewords + remainder.",
+        rule="cases: as C03; spec verdict = module_type() of every module = ISO region of the coordinate; #Data = 8*codewords + remainder. Plus `svgcmd`: a custom command layer must be handed the symbol's own modules (labels included) at the shifted coordinates.",
         exhaustive_thorough=True,
         trusted=COMMON_TRUST + ["templateOk / scanOk: evaluated by native_decide (Lean compiler trusted for these closed terms)"]),
     "C16": dict(
